@@ -1,1 +1,94 @@
-pub fn hello(){}
+//! `mc` — the model-checking support library of /verif (independent of stats-ci):
+//! explorer, enumerators, oracles, evidence / replay / known-findings handling.
+
+pub mod exact;
+pub mod explore;
+pub mod oracle;
+pub mod report;
+pub mod selftest;
+
+pub use report::{catch, hash_of, par_judge, par_range, parse_args, quiet_panics, Cmd, Report, Sink, Tier};
+pub use serde_json::{json, Value};
+
+/// 23-level grid `LG` (DESIGN §3); {0.25, 0.5, 0.75, 0.875, 0.96875} are dyadic.
+pub const LG: [f64; 23] = [
+    0.001, 0.01, 0.05, 0.1, 0.2, 0.25, 0.3, 0.4, 0.5, 0.6, 0.7, 0.75, 0.8, 0.85, 0.875, 0.9, 0.95,
+    0.96875, 0.975, 0.99, 0.995, 0.999, 0.9999,
+];
+/// quick-tier subset `LQ`
+pub const LQ: [f64; 7] = [0.001, 0.25, 0.5, 0.9, 0.95, 0.96875, 0.9999];
+
+pub fn is_dyadic_level(l: f64) -> bool {
+    // exactly representable with few bits: l * 2^10 is an integer
+    (l * 1024.0).fract() == 0.0
+}
+
+#[derive(Clone, Copy, Debug, PartialEq, Eq, Hash, PartialOrd, Ord, serde::Serialize, serde::Deserialize)]
+pub enum Kind {
+    Two,
+    Upper,
+    Lower,
+}
+pub const KINDS: [Kind; 3] = [Kind::Two, Kind::Upper, Kind::Lower];
+
+impl Kind {
+    pub fn name(self) -> &'static str {
+        match self {
+            Kind::Two => "two-sided",
+            Kind::Upper => "upper",
+            Kind::Lower => "lower",
+        }
+    }
+    pub fn flipped(self) -> Kind {
+        match self {
+            Kind::Two => Kind::Two,
+            Kind::Upper => Kind::Lower,
+            Kind::Lower => Kind::Upper,
+        }
+    }
+}
+
+pub fn levels(tier: Tier) -> &'static [f64] {
+    match tier {
+        Tier::Quick => &LQ,
+        Tier::Thorough => &LG,
+    }
+}
+
+/// distance in units in the last place between two finite doubles of the same sign
+/// class (monotone bit mapping); u64::MAX if either is NaN.
+pub fn ulps64(a: f64, b: f64) -> u64 {
+    if a.is_nan() || b.is_nan() {
+        return u64::MAX;
+    }
+    fn key(x: f64) -> i64 {
+        let b = x.to_bits() as i64;
+        if b < 0 {
+            i64::MIN - b
+        } else {
+            b
+        }
+    }
+    let (ka, kb) = (key(a), key(b));
+    (ka as i128 - kb as i128).unsigned_abs() as u64
+}
+
+pub fn ulps32(a: f32, b: f32) -> u64 {
+    if a.is_nan() || b.is_nan() {
+        return u64::MAX;
+    }
+    fn key(x: f32) -> i32 {
+        let b = x.to_bits() as i32;
+        if b < 0 {
+            i32::MIN - b
+        } else {
+            b
+        }
+    }
+    (key(a) as i64 - key(b) as i64).unsigned_abs()
+}
+
+/// injective text rendering of a double (bit pattern + human form)
+pub fn fbits(x: f64) -> String {
+    format!("{:?}#{:016x}", x, x.to_bits())
+}
